@@ -581,3 +581,46 @@ def check_gating(ex, st, F, D):
         a = F.plan_ev.args[1]
         if not params_is(a):
             return bad('install plan created with other request parameters')
+
+
+def monitor_alignment3(chk):
+    """three offered apps: the k-th offered app gets the k-th installer result (decisions fixed: plan created,
+    policy approves, reports delivered) -- catches reorderings that two results cannot show"""
+    from callers import mk_assume
+    o = chk.ob('result-alignment-three-offers', 'with three apps offered an update and every combination of installer results, result app j carries the action of its own installer result and the per-app report events follow the response order')
+    inner = mk_assume('tail')
+
+    def assume(ex, st, name, val, ty):
+        base = name[:-4] if name.endswith('!out') else name
+        if base == 'do_omaha_request' or base.endswith('update_can_start') or base.endswith('try_create_install_plan') or base == 'parse_json_response':
+            st.pc.append(ex.discr_of(st, val, ty).t == 0)
+            return
+        if base.endswith('reboot_needed'):
+            st.pc.append(z3.Not(z3.Bool(st.trace[-1].out + '!out')) if False else z3.BoolVal(True))
+        return inner(ex, st, name, val, ty)
+    ex, res = explore_puc(chk, 'tail', 1, 3, 'contract', cfg=dict(env_assume=assume, max_paths=60000))
+    D = Decide(chk, ex, o, cross=False)
+    DL = Decide(chk, ex, chk.ob('_tmp', ''), cross=False)
+    n3 = 0
+    for st in res:
+        if st.status != 'done':
+            D.no_bad_status([st])
+            continue
+        F = decode_path(ex, st, 1)
+        if F.undecided or F.results is None or len(F.results) != len(F.update_apps):
+            continue
+        if len(F.update_apps) == 3:
+            n3 += 1
+        check_result(ex, st, F, D)
+        check_reports(ex, st, F, D, DL)
+    chk.obligations = [x for x in chk.obligations if x.name != '_tmp']
+    if n3 == 0:
+        D.failed = D.failed or ('inconclusive', 'vacuous: no path with three offered apps', None, None)
+    f = D.done()
+    if f and f[0] == 'violated':
+        o.key = o.name
+        o.cex = {'path': story(ex, f[3])} if f[3] is not None else None
+        import conform
+        conform.confirm(chk, D, ex, 1)
+    chk.extra['alignment3_paths'] = len(res)
+    chk.absorb(ex)
